@@ -15,4 +15,5 @@ def run(ctx):
                 r.rule += "@" + fs
         out += res
     out.append(T.output_path_rule(ctx.syn, "C11"))
+    out.append(T.export_test_rule(ctx.syn, "C11"))
     return out
